@@ -47,8 +47,8 @@ def plan(thorough):
 
 def prove_async(chk):
     """What chk.prove() does, for Props/C04Async.v (adds to the obligations already counted)."""
-    ok, out = coqio.build(['Props/%s.v' % PROPS_FILE])
-    chk.checker_cmds.append('make -C coq -j%d Props/%s.vo' % (common.NCPU, PROPS_FILE))
+    ok, out = coqio.build(['Props/%s.v' % PROPS_FILE, 'Check/C20Check.v'])
+    chk.checker_cmds.append('make -C coq -j%d Props/%s.vo Check/C20Check.vo' % (common.NCPU, PROPS_FILE))
     if not ok:
         chk.broken_obligation('coq build failed in %s: %s' % (coqio.failed_files(out) or '?', out[-1200:]))
         return False
